@@ -413,6 +413,14 @@ def idStep (s : DState) : List String → DState × String
               idPlugins := if plugins == "none" then [] else plugins.splitOn "+",
               idRl := if rl == "1" then some 2 else none, idEjected := false },
      "ok " ++ escStr (canonKey rhn) ++ " " ++ escStr (canonKey thn))
+  | ["burst", n, _workers] =>
+    -- `id_injective` + distinct CSPRNG draws: every generated identifier is distinct
+    match n.toNat? with
+    | none => (s, "bad-op")
+    | some n =>
+      let (ron, _, ton, _) := s.idCfg
+      let per := (if ron then 1 else 0) + (if ton then 1 else 0)
+      ({ s with idRl := s.idRl.map (fun t => t - n) }, s!"burst ids={n * per} dups=0")
   | ["req", rid, tr, key, blen, ej] =>
     match blen.toNat? with
     | none => (s, "bad-op")
@@ -611,6 +619,7 @@ def step (s : DState) (line : String) : DState × String :=
   -- conservation theorems, lockorder_sound) and the timeouts fact for every single request
   | ["ft", "new", _, _, _, _, _] => (s, "ok")
   | ["ft", "close"] => (s, "ok")
+  | ["ft", "wait", _] => (s, "ok")
   | ["ft", "req", _] => (s, "ended=1")
   | ["ft", "conc", n, faults] =>
     (match n.toNat? with
@@ -621,6 +630,7 @@ def step (s : DState) (line : String) : DState × String :=
   | ["stop", _nb, _pm, _du, _st, pool] =>
     -- what the protocol theorems (Helios.Shut.stop_safe / stop_no_deadlock) promise for every schedule
     (s, "stop returned within=true late=0" ++ (if pool == "1" then " pooledClosed=true" else ""))
+  | ["wshold", _variant, _hs, _hm] => (s, "ws ok 1")
   | ["ws", _chain, sizes] => (s, s!"ws ok {(sizes.splitOn ",").length}")
   | ["cfg", _path, compact] => (s, cfgStep compact)
   | ["cfgfile", _path] => (s, "load=ok start=ok")
